@@ -72,6 +72,8 @@ def render(cases, cxx, w=None):
         lines.append("struct A%04d { struct %s only_arr[2]; };" % (k, n))
         lines.append("struct M%04d { struct %s only_arr2[2][2]; int tail; };" % (k, n))
         lines.append("struct P%04d { struct %s *only_ptr; };" % (k, n))
+        # reached through a typedef, in a struct that needs a hand-written Debug impl (--impl-debug; array > 32)
+        lines.append("typedef struct %s %s_t;\nstruct T%04d { %s_t via_td; int big[40]; };" % (n, n, k, n))
         # a function and a variable that share the marked type's name (separate C name spaces)
         if not cxx:
             lines.append("int %s(int x);" % n)
